@@ -179,6 +179,19 @@ for _p, _t in (("C13", "SOURCE = MODEL for find_header (translator tools/gen_fns
     CLAIMS[_p]["text"] = _t + " " + CLAIMS[_p]["text"]
     CLAIMS[_p]["technique"] += " + source-to-IR translation of the function bodies with kernel-checked equivalence to the model"
 
+LINKED = ("LINKED composites (tools/gen_fns.py substitutes the translated callee bodies into the caller, Props/FnsLinked.lean): ref_from_slice_{tag,ht,bi,hb}_linked_eq, "
+          "mbi_load_linked_eq, hdr_load_linked_eq - load -> ref_from_ptr -> ref_from_slice -> BytesRef::try_from -> ref_from_bytes -> payload_len/total_size evaluated as ONE "
+          "term equals the model's closed form, so a changed callee is seen through every caller; ")
+IMPLS = ("trait-impl method sets read from the source (header_impls, iterator_impls_only_next, exact_size_impls, maybe_dyn_sized_impls_minimal, default_impls): no impl "
+         "overrides a provided method (nth, size_hint, total_size, ...) the translated bodies do not cover; ")
+for _p in ("C14", "C02", "C10", "C08", "C09", "C03"):
+    CLAIMS[_p]["text"] = LINKED + CLAIMS[_p]["text"]
+for _p in ("C14", "C02", "C10", "C03", "C18", "C19", "C15", "C05", "C01", "C07", "C11", "C09"):
+    CLAIMS[_p]["text"] = IMPLS + CLAIMS[_p]["text"]
+CLAIMS["C05"]["text"] = "Padding twins (SWEEP: the same region with the alignment padding behind every fixed-size tag flipped must compare `==` on every typed view); " + CLAIMS["C05"]["text"]
+CLAIMS["C19"]["text"] = "ELFNAME names judged by an independent oracle (NUL-terminated bytes at the name index inside the designated string table, also tables that do not start with NUL); " + CLAIMS["C19"]["text"]
+CLAIMS["C03"]["text"] = "module iterator judged on every loaded region (not only spec-conformant ones) against the module tags of the specification's walk; " + CLAIMS["C03"]["text"]
+
 NOT_YET = "not yet claimed: the Lean model, theorems and correspondence check for this property are still being built (DESIGN.md section 12 gives the order); the technique applies and the property will be claimed"
 
 
